@@ -1,9 +1,12 @@
 /-
-C11 — size consistency (local stand-in for C12's `wellSizedProgram`, which does not exist yet):
-* `pcodeDefSized`: the operand sizes of a P-Code instruction are consistent with its operation
-  (what Ghidra guarantees for the P-Code it emits);
-* `irDefSized` / `irJmpSized`: the typing walk of property C12 on lifted defs and jumps.
-The driver reports ill-sized lifted IR for size-consistent P-Code as a specification failure.
+C11 — the SIZE part of the extractor domain:
+* `pcodeDefSized` / `pcodeJmpSized` / `pcodeBlkSized` / `projectSized`: the operand sizes of a P-Code
+  instruction are consistent with its operation (what Ghidra guarantees for the P-Code it emits; P-Code
+  reference manual).
+The typing walk on the lifted IR is the one of property C12 (`CweModel.C12.WellSizedBlk`, C12/Model.lean):
+`C12.liftBlk_wellSized` / `C12.lift_wellSized` (C12/Lift.lean) prove that the model of the lifting maps
+in-domain, size-consistent P-Code to size-consistent IR; the C11 driver evaluates the C12 checker on the REAL
+lifted blocks and reports ill-sized lifted IR for size-consistent P-Code as a specification failure.
 
 Core-only.
 -/
@@ -31,32 +34,6 @@ def binResultSize (op : BinOpType) (a b : Nat) : Nat :=
   | _ => a
 
 def unResultSize (op : UnOpType) (a : Nat) : Nat := match op with | .FloatNaN => 1 | _ => a
-
-/-- typing walk over an IR expression -/
-def irSized : Expression → Bool
-  | .Var v => decide (0 < v.size)
-  | .Const b _ => decide (0 < b)
-  | .BinOp op l r =>
-    irSized l && irSized r && (!binSameSize op || l.bytesize == r.bytesize) &&
-    (!binBoolOperands op || l.bytesize == 1)
-  | .UnOp op a => irSized a && (op != .BoolNegate || a.bytesize == 1)
-  | .Cast op s a =>
-    irSized a && decide (0 < s) && (match op with | .IntZExt | .IntSExt => decide (a.bytesize ≤ s) | _ => true)
-  | .Unknown _ s => decide (0 < s)
-  | .Subpiece lb s a => irSized a && decide (0 < s) && decide (lb + s ≤ a.bytesize)
-
-def irDefSized (ptr : Nat) : Def → Bool
-  | .Assign v e => irSized e && v.size == e.bytesize
-  | .Load v a => irSized a && decide (0 < v.size) && a.bytesize == ptr
-  | .Store a e => irSized a && irSized e && a.bytesize == ptr
-
-def irJmpSized (ptr : Nat) : Jmp → Bool
-  | .CBranch _ c => irSized c && c.bytesize == 1
-  | .BranchInd e | .CallInd e _ | .Return e => irSized e && e.bytesize == ptr
-  | _ => true
-
-def irBlkSized (ptr : Nat) (b : Blk) : Bool :=
-  b.defs.all (fun d => irDefSized ptr d.term) && b.jmps.all (fun j => irJmpSized ptr j.term)
 
 def vsize (v : Option Pcode.Var) : Nat := match v with | some v => v.size | none => 0
 
@@ -86,5 +63,10 @@ def pcodeJmpSized (ptr : Nat) (j : Pcode.Jmp) : Bool :=
 
 def pcodeBlkSized (ptr : Nat) (b : Pcode.Blk) : Bool :=
   b.defs.all (fun d => pcodeDefSized ptr d.term) && b.jmps.all (fun j => pcodeJmpSized ptr j.term)
+
+/-- the size part of the extractor domain for a whole project (pointer size = size of the stack pointer
+register) -/
+def projectSized (p : Pcode.Project) : Bool :=
+  p.program.subs.all (fun s => s.term.blocks.all (fun b => pcodeBlkSized p.pointerSize b.term))
 
 end CweModel.C11
